@@ -169,6 +169,7 @@ func RegWithTreatedAsLevel(treatAs Level) RegOpt {
 // line to stderr device just like ErrorLevel.
 func RegWithPrintToErrorDevice(b ...bool) RegOpt {
 	return func(pack *regPack) {
+		pack.printOutToErrorDevice = true // no argument means yes, as in the example above
 		for _, v := range b {
 			pack.printOutToErrorDevice = v
 		}
